@@ -182,6 +182,64 @@ class _ExcOrder(ast.NodeTransformer):
         return node
 
 
+class _CtorLit(ast.NodeTransformer):
+    """Empty displays written as constructor calls: `[]` -> `list()`, `{}` -> `dict()` (assigned values and call arguments)."""
+
+    def visit_List(self, node: ast.List) -> ast.AST:  # noqa: N802
+        if not node.elts and isinstance(node.ctx, ast.Load):
+            return ast.Call(func=ast.Name(id="list", ctx=ast.Load()), args=[], keywords=[])
+        return self.generic_visit(node)
+
+    def visit_Dict(self, node: ast.Dict) -> ast.AST:  # noqa: N802
+        if not node.keys:
+            return ast.Call(func=ast.Name(id="dict", ctx=ast.Load()), args=[], keywords=[])
+        return self.generic_visit(node)
+
+    def visit_AnnAssign(self, node: ast.AnnAssign) -> ast.AST:  # noqa: N802
+        if node.value is not None:
+            node.value = self.visit(node.value)
+        return node
+
+    def visit_arguments(self, node: ast.arguments) -> ast.AST:  # noqa: N802
+        return node  # defaults stay literal
+
+    def visit_ClassDef(self, node: ast.ClassDef) -> ast.AST:  # noqa: N802
+        # class-level tables (KEYWORD_MAP = {...}) are data, leave them; methods are visited
+        for st in node.body:
+            if isinstance(st, (ast.FunctionDef, ast.AsyncFunctionDef)):
+                self.visit(st)
+        return node
+
+
+class _DeMorgan(ast.NodeTransformer):
+    """`not (a and b)` -> `not a or not b`; `not (a or b)` -> `not a and not b`."""
+
+    def visit_UnaryOp(self, node: ast.UnaryOp) -> ast.AST:  # noqa: N802
+        self.generic_visit(node)
+        if isinstance(node.op, ast.Not) and isinstance(node.operand, ast.BoolOp):
+            b = node.operand
+            return ast.BoolOp(op=ast.Or() if isinstance(b.op, ast.And) else ast.And(), values=[ast.UnaryOp(op=ast.Not(), operand=v) for v in b.values])
+        return node
+
+
+class _Passes(ast.NodeTransformer):
+    """A `pass` in front of every statement of every function body (stands for an inserted no-op such as a log line)."""
+
+    def generic_visit(self, node: ast.AST) -> ast.AST:
+        super().generic_visit(node)
+        if isinstance(node, (ast.FunctionDef, ast.AsyncFunctionDef, ast.If, ast.For, ast.While, ast.With, ast.Try, ast.AsyncFor, ast.AsyncWith)):
+            for fld in ("body", "orelse", "finalbody"):
+                b = getattr(node, fld, None)
+                if isinstance(b, list) and b and isinstance(b[0], ast.stmt) and not (fld == "orelse" and isinstance(node, ast.If) and len(b) == 1 and isinstance(b[0], ast.If)):
+                    nb: list[ast.stmt] = []
+                    for i, st in enumerate(b):
+                        if not (i == 0 and isinstance(st, ast.Expr) and isinstance(st.value, ast.Constant)):
+                            nb.append(ast.Pass())
+                        nb.append(st)
+                    setattr(node, fld, nb)
+        return node
+
+
 class _MsgText(ast.NodeTransformer):
     """Reword the message of every `raise X("…")` (prefix added)."""
 
@@ -202,7 +260,7 @@ def transform(src: str, kind: str) -> str:
         tree = _Rename().visit(tree)
     if kind in ("swapif", "all"):
         tree = _SwapIf().visit(tree)
-    for k_, cls_ in (("swapifexp", _SwapIfExp), ("yoda", _Yoda), ("kwreorder", _KwReorder), ("excorder", _ExcOrder), ("msgtext", _MsgText)):
+    for k_, cls_ in (("swapifexp", _SwapIfExp), ("yoda", _Yoda), ("kwreorder", _KwReorder), ("excorder", _ExcOrder), ("msgtext", _MsgText), ("ctorlit", _CtorLit), ("demorgan", _DeMorgan), ("passes", _Passes)):
         if kind == k_:
             tree = cls_().visit(tree)
     if kind == "retvar":
